@@ -392,21 +392,21 @@ def _families() -> dict[str, Family]:
     fams: dict[str, Family] = {}
     for f in families():
         fams[f] = Family(f, _gen_for(f), run_case, shrink=_shrink, case_timeout=60.0)
-    fams["catalogue_coverage"] = Family("catalogue_coverage", gen_coverage, run_coverage, case_timeout=300.0)
+    fams["zz_catalogue_coverage"] = Family("zz_catalogue_coverage", gen_coverage, run_coverage, case_timeout=300.0)
     fams["repo_suite"] = Family("repo_suite", gen_suite, run_suite, case_timeout=1700.0)
     return fams
 
 
 FAMILIES = _families()
 
-_L1 = [f for f in FAMILIES if f not in ("catalogue_coverage", "repo_suite")]
+_L1 = [f for f in FAMILIES if f not in ("zz_catalogue_coverage", "repo_suite")]
 
 
 def _budget(per_builder: int) -> dict[str, int]:
     from hsverif.scenarios import names
 
     b = {f: max(6, per_builder * len(names(f))) for f in _L1}
-    b["catalogue_coverage"] = 1
+    b["zz_catalogue_coverage"] = 1
     return b
 
 
